@@ -1,7 +1,9 @@
 """property id -> (spec, harness group)"""
-from . import props_alg
+from . import props_alg, props_alias
 
 SPECS = {}
 for pid, spec in props_alg.SPECS.items():
     SPECS[pid] = (spec, props_alg.GROUP)
+for pid, spec in props_alias.SPECS.items():
+    SPECS[pid] = (spec, props_alias.GROUP)
 NOT_CLAIMED = {}
